@@ -539,3 +539,20 @@ func (r *Respd) List(db int, key string) [][]byte {
 	}
 	return out
 }
+
+// Virtual registers an in-scheduler transport for this server's address: gmqtt's redis
+// connections (its redigo.Dial calls are rewritten by the overlay) become in-memory
+// pipes served by scheduler threads, so that every command is a scheduling point and
+// executions are deterministic.  Call inside a vsched execution; connections die with it.
+func (r *Respd) Virtual() {
+	n := 0
+	vsched.RedisDialers[r.Addr()] = func() net.Conn {
+		n++
+		cl, sv := Pipe(fmt.Sprintf("redis%d", n), 1<<20)
+		r.mu.Lock()
+		r.conns[sv] = 0
+		r.mu.Unlock()
+		vsched.Go("respd.serve", func() { r.serve(sv) })
+		return cl
+	}
+}
